@@ -1011,6 +1011,20 @@ class CallsMixin:
             else:
                 st.meta['fresh_arrs'] = set(st.meta.get('fresh_arrs', set())) | {x.get_id() for x in new}
             res.arrs = new
+        if getattr(self, 'use_seq', False) and len(res.arrs) == 1 and self.tt.intinfo(etid) and self.tt.intinfo(etid)[0] == 8:
+            # byte slices seen as sequences: append is concatenation (true in the standard model of finite sequences;
+            # stated here because sl() is indexed by the array term, which append changes)
+            from .values import sl, cat, sbyte, sempty
+            oldseq = sl(s.arrs[0], s.off, s.off + s.len)
+            if src[0] == 'vals':
+                add = sempty
+                for v in src[1]:
+                    add = sbyte(v) if add is sempty else cat(add, sbyte(v))
+            else:
+                t = src[1]
+                add = sl(t.arr if isinstance(t, StrV) else t.arrs[0], t.off, t.off + t.len)
+            newseq = sl(res.arrs[0], res.off, res.off + res.len)
+            st.assume(newseq == (oldseq if add is sempty else cat(oldseq, add)))
         return res
 
 import re
